@@ -17,6 +17,7 @@ EXPLANATION = (
     '_notify_subscribers -> each callback) is awaited, never handed to a background task; R4 the subscriber collections are not shared or mutated during '
     'delivery (C12.R4 re-used). Given the documented contract of StreamReader.readexactly (exactly n bytes or IncompleteReadError, regardless of '
     'segmentation) the delivered sequence is a function of the byte stream alone.'
+    ' Added later: R1 also demands that the read path refuses nothing itself: no raise of its own and `no message` only without a reader, on a failed checksum or inside the DecodeError handler (every length the 2-byte field can announce is legal).'
 )
 ASSUMPTIONS = ["asyncio.StreamReader.readexactly(n) returns exactly n bytes or raises IncompleteReadError, independent of how the bytes arrive"]
 FLOORS = {"C13.R1": 5, "C13.R2": 3, "C13.R3": 2, "C13.R4": 1, "C13.R5": 1}
